@@ -11,6 +11,7 @@ import http.server
 import io
 import itertools
 import logging
+import os
 import re
 import socket
 import threading
@@ -65,6 +66,96 @@ class FailingStream(io.RawIOBase):
         return len(d)
 
 
+class VerifError(Exception):
+    """an exception class of the handler's own"""
+
+
+EXC_MESSAGES = ["scripted failure", "first line\r\nX-Injected: 1\r\n\r\nsecond line", "\u043a\u043b\u044e\u0447 \u2713 \U0001f512", ""]
+EXC_CLASSES = ["RuntimeError", "ValueError", "KeyError", "LookupError", "TypeError", "AttributeError", "AssertionError",
+               "ArithmeticError", "ZeroDivisionError", "StopIteration", "RecursionError", "NotImplementedError",
+               "OSError", "ConnectionError", "ConnectionRefusedError", "ConnectionResetError", "ConnectionAbortedError",
+               "BrokenPipeError", "TimeoutError", "PermissionError", "FileNotFoundError", "IsADirectoryError",
+               "BlockingIOError", "InterruptedError", "UnicodeError", "UnicodeDecodeError", "UnicodeEncodeError",
+               "EOFError", "BufferError", "MemoryError", "VerifError", "Exception"]
+
+
+def make_exc(spec):
+    """spec = (class name, message index) or None"""
+    if spec is None:
+        return RuntimeError("scripted failure")
+    name, mi = spec
+    msg = EXC_MESSAGES[mi % len(EXC_MESSAGES)]
+    if name == "VerifError":
+        return VerifError(msg)
+    cls = getattr(__import__("builtins"), name)
+    if name == "UnicodeDecodeError":
+        return cls("utf-8", b"\xff", 0, 1, msg)
+    if name == "UnicodeEncodeError":
+        return cls("latin-1", "\u2713", 0, 1, msg)
+    if issubclass(cls, OSError) and name != "OSError":
+        return cls(1, msg)                     # errno style, as the socket and file APIs raise them
+    return cls(msg)
+
+
+class NonSeekable(io.RawIOBase):
+    """a stream without seek/tell/fileno (a pipe, a decompressor, a generator)"""
+    def __init__(self, data):
+        super().__init__()
+        self._b = io.BytesIO(data)
+
+    def readable(self):
+        return True
+
+    def seekable(self):
+        return False
+
+    def readinto(self, buf):
+        d = self._b.read(len(buf))
+        buf[:len(d)] = d
+        return len(d)
+
+
+_FILES = {}
+_FILEDIR = None
+
+
+def real_file(data):
+    """path of a real file with this content (kept until the end of the run)"""
+    global _FILEDIR
+    if _FILEDIR is None:
+        import tempfile
+        import shutil
+        _FILEDIR = tempfile.mkdtemp(prefix="verif-c03-")
+        atexit.register(shutil.rmtree, _FILEDIR, True)
+    key = hashlib.sha1(data).hexdigest()
+    if key not in _FILES:
+        p = os.path.join(_FILEDIR, key)
+        with open(p, "wb") as f:
+            f.write(data)
+        _FILES[key] = p
+    return _FILES[key]
+
+
+def open_stream(data, src):
+    """src = (kind, how, k): kind bytesio | file | rawfile | nonseekable; how None | read | seek: the handler has
+    already consumed / skipped k bytes before it returns the stream"""
+    kind, how, k = src
+    if kind == "bytesio":
+        f = io.BytesIO(data)
+    elif kind == "file":
+        f = open(real_file(data), "rb")
+    elif kind == "rawfile":
+        f = open(real_file(data), "rb", buffering=0)
+    else:
+        f = NonSeekable(data)
+    if how == "read":
+        got = f.read(k)
+        assert got == data[:k]
+    elif how == "seek":
+        f.seek(k)
+    return f
+
+
 class ScriptHandler(S.HttpRequestHandler):
     def __init__(self, index):
         self.index = index
@@ -78,14 +169,14 @@ class ScriptHandler(S.HttpRequestHandler):
     def prepare_context(self, uri):
         h = self._spec(uri)
         if h is not None and h["prep_raises"]:
-            raise RuntimeError("scripted prepare_context failure")
+            raise make_exc(h.get("exc"))
         return h
 
     def can_handle(self, uri, context):
         if context is None:
             return False
         if context["can_raises"]:
-            raise RuntimeError("scripted can_handle failure")
+            raise make_exc(context.get("exc"))
         return context["can"]
 
     def handle(self, request_info, body, context):
@@ -94,18 +185,21 @@ class ScriptHandler(S.HttpRequestHandler):
             body.read(n)
         act = context["act"]
         if act is None:
-            raise RuntimeError("scripted handle failure")
+            raise make_exc(context.get("exc"))
         rv = context.get("rendezvous")
         if rv is not None:                      # ("wait", key): needs ANOTHER request to be served meanwhile
             ev = EVENTS.setdefault(rv[1], threading.Event())
             if rv[0] == "set":
                 ev.set()
-            elif not ev.wait(3.0):
+            elif not ev.wait(15.0 if rv[0] == "hold" else 3.0):
                 return (http.HTTPStatus.SERVICE_UNAVAILABLE, {"X-Rendezvous": "alone"}, io.BytesIO(b"alone"))
         status, hdrs, b = act
         stream = None
         if b is not None:
-            stream = FailingStream(b[0]) if b[1] else io.BytesIO(b[0])
+            if len(b) > 2 and b[2] is not None:
+                stream = open_stream(b[0], b[2])
+            else:
+                stream = FailingStream(b[0]) if b[1] else io.BytesIO(b[0])
         return (http.HTTPStatus(status), None if hdrs is None else dict(hdrs), stream)
 
 
@@ -237,8 +331,15 @@ def canonical(raw):
 
 
 # ----------------------------------------------------------------------------- cases
-def handler(can=True, act=None, prep_raises=False, can_raises=False):
-    return {"prep_raises": prep_raises, "can_raises": can_raises, "can": can, "act": act}
+def handler(can=True, act=None, prep_raises=False, can_raises=False, exc=None):
+    return {"prep_raises": prep_raises, "can_raises": can_raises, "can": can, "act": act, "exc": exc}
+
+
+def body_bytes(b):
+    """what the client is to receive: what the returned stream yields from its CURRENT position"""
+    if len(b) > 2 and b[2] is not None and b[2][1] is not None:
+        return b[0][b[2][2]:]
+    return b[0]
 
 
 def H(n):
@@ -300,6 +401,26 @@ class C03(Check):
                 yield self.mk(m, [handler(act=(st, [], None))])
                 yield self.mk(m, [handler(act=(st, None, (b"", False)))])
                 yield self.mk(m, [handler(act=(st, H(1), None))])
+        # what kind of stream the handler returns and where it stands: the body is what it yields from there
+        medium = bytes((i * 31 + (i >> 7)) & 0xFF for i in range(200_000))
+        for data in (SMALL, medium):
+            for kind in ("bytesio", "file", "rawfile", "nonseekable"):
+                for how, k in ((None, 0), ("read", 0), ("read", 7), ("read", len(data) - 1), ("read", len(data)),
+                               ("seek", 7), ("seek", len(data) // 2), ("seek", len(data))):
+                    if kind == "nonseekable" and how == "seek":
+                        continue
+                    for st, nh in ((200, 1), (404, None)):
+                        yield self.mk("GET", [handler(act=(st, H(nh), (data, False, (kind, how, k))))])
+        yield self.mk("HEAD", [handler(act=(200, H(1), (medium, False, ("file", "seek", 100))))])
+        yield self.mk("POST", [handler(act=(200, None, (medium, False, ("rawfile", "read", 65536))))], reqbody=b"abc")
+        # every exception class a handler may let escape, from each of its three methods: always the 500 page
+        for ci, cls in enumerate(EXC_CLASSES):
+            for mi in range(len(EXC_MESSAGES)):
+                if tier == "quick" and (ci + mi) % 2 and mi > 0:
+                    continue
+                yield self.mk("GET", [handler(act=None, exc=(cls, mi))])
+                yield self.mk(METHODS[(ci + mi) % 5], [handler(prep_raises=True, act=(200, None, None), exc=(cls, mi))])
+                yield self.mk("GET", [handler(can=False), handler(can_raises=True, act=(200, None, None), exc=(cls, mi))])
         # raising handlers, failing streams
         for m in METHODS:
             yield self.mk(m, [handler(act=None)])
@@ -388,7 +509,7 @@ class C03(Check):
             st, hd, b = act
             a = [1, st,
                  [0] if hd is None else [1, [[k.encode("latin-1"), v.encode("latin-1")] for k, v in hd]],
-                 [0] if b is None else [1, big(b[0]), bool(b[1])]]
+                 [0] if b is None else [1, big(body_bytes(b)), bool(b[1])]]
         return [bool(h["prep_raises"]), bool(h["can_raises"]), bool(h["can"]), a]
 
     def line(self, c, obs):
@@ -431,8 +552,10 @@ class C03(Check):
             if a is not None:
                 st, hd, b = a
                 a = {"status": st, "headers": hd,
-                     "body": None if b is None else {"len": len(b[0]), "head": b[0][:40].hex(), "fails": b[1]}}
-            return {"prep_raises": h["prep_raises"], "can_raises": h["can_raises"], "can": h["can"], "act": a}
+                     "body": None if b is None else {"len": len(b[0]), "head": b[0][:40].hex(), "fails": b[1],
+                                                     "stream(kind, consumed how, k bytes)": b[2] if len(b) > 2 else None}}
+            return {"prep_raises": h["prep_raises"], "can_raises": h["can_raises"], "can": h["can"], "act": a,
+                    "raises": None if h.get("exc") is None else [h["exc"][0], EXC_MESSAGES[h["exc"][1] % len(EXC_MESSAGES)]]}
         return {"method": c["method"], "path": c["path"], "http_version": "1.%d" % c.get("version", 0),
                 "handlers": [sh(h) for h in c["handlers"]]}
 
@@ -535,6 +658,13 @@ class C03(Check):
                           ["keeps_answering_concurrent_requests"], common._jsonable([p1, p2]), None))
         EVENTS.pop(key, None)
         report["extra"]["concurrency_probes"] = 2
+        # (4) many requests pending at once (handlers blocked on an Event, some clients with a half-sent head):
+        #     one more request must still be answered in time - no bound on simultaneously served connections
+        if not fails:
+            f = self.many_pending(40 if self.tier == "quick" else 80, deadline)
+            report["extra"]["concurrency_probes"] += 1
+            if f is not None:
+                fails.append(f)
         # (3) two large bodies in flight at once: one client stalls (tiny receive buffer, not reading) while the other
         #     downloads completely, then the first reads the rest; both bodies must arrive byte for byte
         if not fails:
@@ -548,6 +678,48 @@ class C03(Check):
             report["impl_failures"] += len(fails)
             report.setdefault("extra_failing", []).extend(fails)
         return not fails
+
+    def many_pending(self, n, deadline):
+        key = "hold%d" % next(self._seq)
+        EVENTS[key] = threading.Event()
+        port = server_port()
+        results = [None] * n
+        halves = []
+
+        def held(i):
+            h = handler(act=(200, None, (b"released %d" % i, False)))
+            h["rendezvous"] = ("hold", key)
+            results[i] = do_request(self.mk("GET", [h]), timeout=25.0)
+        ths = [threading.Thread(target=held, args=(i,)) for i in range(n)]
+        try:
+            for t in ths:
+                t.start()
+            for _ in range(max(4, n // 8)):
+                a = socket.socket(socket.AF_INET6, socket.SOCK_STREAM)
+                a.connect(("::1", port))
+                a.sendall(b"GET /c/half-sent HTTP/1.0\r\n")
+                halves.append(a)
+            time.sleep(0.4)                                    # all of them have reached the server
+            c = self.mk("GET", [handler(act=(200, H(1), (b"one more", False)))])
+            t0 = time.time()
+            raw, _n, _l = do_request(c, timeout=deadline)
+            p = canonical(raw)
+            waited = time.time() - t0
+        finally:
+            EVENTS[key].set()
+            for t in ths:
+                t.join(30.0)
+            for a in halves:
+                a.close()
+            EVENTS.pop(key, None)
+        ok_held = sum(1 for i, r in enumerate(results) if r is not None and canonical(r[0])[:2] == [1, 200]
+                      and canonical(r[0])[4] == b"released %d" % i)
+        if not (p[0] == 1 and p[1] == 200 and p[4] == b"one more") or ok_held != n:
+            return ({"_extra": True, "probe": "%d requests pending (handlers blocked on an Event) and %d half-sent heads, then one more request"
+                                              % (n, len(halves)),
+                     "deadline_s": deadline, "waited_s": round(waited, 2), "held_requests_answered_after_release": ok_held},
+                    ["keeps_answering_concurrent_requests"], common._jsonable(p), None)
+        return None
 
     def interleaved_bodies(self, mib):
         nblocks = mib * 256
